@@ -293,6 +293,28 @@ func bigInts(s string) []int {
 	return out
 }
 
+// balancedPrint: the printed form of a hash opens and closes its brackets (format-agnostic otherwise; none of the
+// generated keys or values contains a bracket or quote character)
+func balancedPrint(s string) bool {
+	s = strings.TrimSpace(s)
+	if s == "" {
+		return false
+	}
+	depth := 0
+	for _, c := range s {
+		switch c {
+		case '{', '(', '[':
+			depth++
+		case '}', ')', ']':
+			depth--
+			if depth < 0 {
+				return false
+			}
+		}
+	}
+	return depth == 0 && strings.ContainsAny(s[:1], "{(") 
+}
+
 func eqInts(a, b []int) bool {
 	if len(a) != len(b) {
 		return false
@@ -532,6 +554,9 @@ func execHash(body json.RawMessage) *kernel.Result {
 		o = ev("(str h)")
 		if s, isStr := o.Val.(*zygo.SexpStr); !o.OK() || !isStr {
 			fail("C14.O-order", "str", "step %d: (str h) gave %s", step, o)
+			ok = false
+		} else if !balancedPrint(s.S) {
+			fail("C14.O-order", "str-form", "step %d: (str h) = %q is not a well-formed printed hash (unbalanced brackets); content %v", step, s.S, m.keys)
 			ok = false
 		} else if got := bigInts(s.S); !eqInts(got, m.valueList()) {
 			fail("C14.O-order", "str", "step %d: (str h) = %q shows values %v, model %v", step, s.S, got, m.valueList())
